@@ -328,9 +328,15 @@ def _shard_entry(args):
         return ("ok", sub.export())
     except Infra as e:
         return ("infra", str(e))
-    except Exception as e:
+    except (MemoryError, OSError) as e:
         import traceback
         return ("infra", "shard crashed: " + traceback.format_exc()[-1500:])
+    except Exception as e:
+        # the harness itself tripped over the tree under test (never happens on the unchanged tree):
+        # the correspondence of this stream no longer runs -> a broken obligation, not an infra error
+        import traceback
+        return ("crash", "harness stream %s.%s crashed on this tree: %s" % (
+            fn_mod, fn_name, " | ".join(traceback.format_exc().strip().split("\n")[-6:])))
 
 
 def run_shards(ctx, fn_mod, fn_name, specs, procs=None):
@@ -353,6 +359,10 @@ def run_shards(ctx, fn_mod, fn_name, specs, procs=None):
     for kind, payload in results:
         if kind == "infra":
             raise Infra(payload)
+        if kind == "crash":
+            if payload not in ctx.broken:
+                ctx.broken.append(payload)
+            continue
         ctx.merge(payload)
 
 
@@ -452,14 +462,32 @@ def run_check(prop_id, mod, tier, seed, replay=None):
                     ctx.broken.append("leanchecker failed: " + out[-500:])
         # 4/5. correspondence + oracle
         ctx.model_ok = model_ok
-        if replay:
-            mod.replay(ctx, json.load(open(replay)))
-        else:
-            mod.run(ctx)
+        try:
+            if replay:
+                mod.replay(ctx, json.load(open(replay)))
+            else:
+                mod.run(ctx)
+        except (Infra, MemoryError, OSError, KeyboardInterrupt):
+            raise
+        except Exception:
+            # the harness tripped over the tree under test: the correspondence no longer runs
+            import traceback
+            ctx.broken.append("harness crashed on this tree: " + " | ".join(
+                traceback.format_exc().strip().split("\n")[-6:]))
         if (ctx.broken or ctx.disagreements) and not ctx.failures and hasattr(mod, "search"):
-            mod.search(ctx)
+            try:
+                mod.search(ctx)
+            except (Infra, MemoryError, OSError, KeyboardInterrupt):
+                raise
+            except Exception:
+                import traceback
+                ctx.broken.append("failing-input search crashed on this tree: " + " | ".join(
+                    traceback.format_exc().strip().split("\n")[-4:]))
     except Infra as e:
         print("INFRA: %s" % e)
+        sys.exit(2)
+    except (MemoryError, OSError, subprocess.TimeoutExpired) as e:
+        print("INFRA: %r" % (e,))
         sys.exit(2)
     return finish(ctx, mod, ev_path)
 
